@@ -25,7 +25,7 @@ BOUNDS = {"corpus": "2 jobs (quick) / 3 jobs in h_eq3 (thorough); each with key 
           "shapes": "missing / scalar / one-element list / nested mapping {c: v}", "filters": "one harness per atomic template and per logical template (depth <= 3)"}
 OUTSIDE = ["$where (not in the documented grammar)", "arbitrary regexes (fixed pattern list)", "symbolic float operands and $near tolerances (concrete table)", "corpora > 3 jobs",
            "order comparisons between values Python cannot order (excluded by the property)"]
-STUBS = ["Project._build_index / Project._job_dirs yield the symbolic corpus (workspace reading itself is covered by C03/C08 and h_end2end in C07)"]
+STUBS = ["kernel harnesses: Project._build_index / Project._job_dirs yield the symbolic corpus; h_end2end: the real _build_index reads state point and document files from MemFS"]
 ASSUMPTIONS = ["operators other than $exists:false apply only to jobs that have the key (signac's documented behaviour)", "equality is Python == on JSON values with list == tuple"]
 
 D = [True, 1, 1.0, "a", None, False, 0, 2, 1.5, "b"]
@@ -364,7 +364,47 @@ def h_independence(i0: int, i1: int, q: int, kind: int):
     assert ok
 
 
+# ------------------------------------------------------------------------------------------------ end to end on MemFS (real _build_index)
+def _e2e_case(d0, d1, d2, a1, tmpl, v, w):
+    """real workspace on MemFS: state point / document files are read by the real Project._build_index"""
+    from vflib import memfs, ws
+    s = ws.Sim(paths=("/p",))
+    try:
+        docs = []
+        sps = [{"a": 0}, {"a": a1, "z": 1}, {"a": 1, "n": {"c": 0}}]
+        corpus = {}
+        for sp, d in zip(sps, (d0, d1, d2)):
+            doc = None if d == 0 else ({} if d == 1 else ({"b": 0} if d == 2 else {"b": 1, "m": {"x": [1]}}))
+            s.add_job("/p", sp, doc=doc if doc else None)
+            if d == 1:
+                j = s.pr["/p"].open_job(sp)
+                j.document["t"] = 1
+                del j.document["t"]      # an existing, empty document file
+            corpus[refs.canon_id(sp)] = (sp, doc)
+        A, B = {"a": w}, {"doc.b": v}
+        flt = [B, {"doc.b": {"$exists": False}}, {"$not": B}, {"$or": [B, A]}, {"$and": [A, {"$not": B}]}, A, {"doc": {"m": {"x": [1]}}}, {"doc.b.$ne": v, "sp.a.$lte": w}][tmpl]
+        pr = memfs.mkproject(s.fs, "/p")
+        cur = pr.find_jobs(flt)
+        got = sorted(j.id for j in cur)
+        want = sorted(expected(corpus, flt))
+        ok = got == want and len(cur) == len(want) and sorted(pr._find_job_ids(flt)) == want
+    finally:
+        s.close()
+    return ok
+
+
+def h_end2end(d0: int, d1: int, d2: int, a1: int, tmpl: int, v: int, w: int):
+    assert 0 <= d0 <= 3 and 0 <= d1 <= 3 and 0 <= d2 <= 3 and 0 <= a1 <= 1 and 0 <= tmpl < 8 and 0 <= v <= 1 and 0 <= w <= 1 and part_ok(tmpl)
+    fresh_path()
+    d0, d1, d2, a1, tmpl, v, w = ci(d0, 0, 3), ci(d1, 0, 3), ci(d2, 0, 3), ci(a1, 0, 1), ci(tmpl, 0, 7), ci(v, 0, 1), ci(w, 0, 1)
+    with nt():
+        ok = _e2e_case(d0, d1, d2, a1, tmpl, v, w)
+    reached()
+    assert ok
+
+
 HARNESSES = [
+    dict(name="h_end2end", timeout=(400, 900), parts=(8, 8)),
     dict(name="h_eq_values", twin="h_eq_values__reach", timeout=(400, 900), parts=(5, 10)),
     dict(name="h_eq_shapes", timeout=(400, 900), parts=(5, 5)),
     dict(name="h_cmp_int", twin="h_cmp_int__reach", timeout=(400, 1500), parts=(6, 6)),
